@@ -38,6 +38,8 @@ type Party interface {
 	unlock()
 	noteEarlyMessage()
 	hasEarlyMessages() bool
+	setFailure(*Error)
+	failure() *Error
 }
 
 type BaseParty struct {
@@ -46,6 +48,8 @@ type BaseParty struct {
 	FirstRound Round
 	// set when a message was stored before Start() was called
 	earlyMessages bool
+	// set when a round failed: the party has aborted and does not process anything further
+	failed *Error
 }
 
 func (p *BaseParty) Running() bool {
@@ -117,6 +121,16 @@ func (p *BaseParty) hasEarlyMessages() bool {
 	return p.earlyMessages
 }
 
+func (p *BaseParty) setFailure(err *Error) {
+	if p.failed == nil {
+		p.failed = err
+	}
+}
+
+func (p *BaseParty) failure() *Error {
+	return p.failed
+}
+
 func (p *BaseParty) lock() {
 	verifLockHook(p, "before-lock")
 	p.mtx.Lock()
@@ -156,6 +170,7 @@ func BaseStart(p Party, task string, prepare ...func(Round) *Error) *Error {
 		common.Logger.Debugf("party %s: %s round %d finished", p.PartyID(), task, 1)
 	}()
 	if err := p.round().Start(); err != nil {
+		p.setFailure(err)
 		return err
 	}
 	if !p.hasEarlyMessages() {
@@ -166,6 +181,7 @@ func BaseStart(p Party, task string, prepare ...func(Round) *Error) *Error {
 	// party that sends nothing in round 1 would never be woken up again
 	for p.round() != nil {
 		if _, err := p.round().Update(); err != nil {
+			p.setFailure(err)
 			return err
 		}
 		if !p.round().CanProceed() {
@@ -173,6 +189,7 @@ func BaseStart(p Party, task string, prepare ...func(Round) *Error) *Error {
 		}
 		if p.advance(); p.round() != nil {
 			if err := p.round().Start(); err != nil {
+				p.setFailure(err)
 				return err
 			}
 		}
@@ -192,6 +209,10 @@ func BaseUpdate(p Party, msg ParsedMessage, task string) (ok bool, err *Error) {
 		return ok, err
 	}
 	p.lock() // data is written to P state below
+	if err := p.failure(); err != nil {
+		// a round of this party has failed: it has aborted. its state is incomplete, so nothing further is processed
+		return r(false, err)
+	}
 	common.Logger.Debugf("party %s received message: %s", p.PartyID(), msg.String())
 	if p.round() != nil {
 		common.Logger.Debugf("party %s round %d update: %s", p.PartyID(), p.round().RoundNumber(), msg.String())
@@ -202,11 +223,13 @@ func BaseUpdate(p Party, msg ParsedMessage, task string) (ok bool, err *Error) {
 	if p.round() != nil {
 		common.Logger.Debugf("party %s: %s round %d update", p.round().Params().PartyID(), task, p.round().RoundNumber())
 		if _, err := p.round().Update(); err != nil {
+			p.setFailure(err)
 			return r(false, err)
 		}
 		if p.round().CanProceed() {
 			if p.advance(); p.round() != nil {
 				if err := p.round().Start(); err != nil {
+					p.setFailure(err)
 					return r(false, err)
 				}
 				rndNum := p.round().RoundNumber()
